@@ -13,6 +13,10 @@ pub enum React {
     Pull2,
     Terminate,
     Error,
+    /// Pull, then (if still allowed) Terminate, inside the same handler
+    PullTerminate,
+    /// Pull, then (if still allowed) Error, inside the same handler
+    PullError,
 }
 
 #[derive(Clone, Debug)]
@@ -23,14 +27,17 @@ pub struct ProbeSpec {
     pub rest: React,
     /// the probe stops pulling after this many Pulls (keeps runs over unbounded sources finite)
     pub pull_cap: usize,
+    /// share only: from inside a handler, attach another probe to the same output:
+    /// (trigger: 0 = in the greeting, 1 = in the k-th datum, 2 = in the terminal; k; probe index)
+    pub attach: Option<(u8, usize, usize)>,
 }
 
 impl ProbeSpec {
     pub fn passive() -> Self {
-        ProbeSpec { policy: vec![], rest: React::Nothing, pull_cap: 1000 }
+        ProbeSpec { policy: vec![], rest: React::Nothing, pull_cap: 1000, attach: None }
     }
     pub fn puller() -> Self {
-        ProbeSpec { policy: vec![], rest: React::Pull, pull_cap: 1000 }
+        ProbeSpec { policy: vec![], rest: React::Pull, pull_cap: 1000, attach: None }
     }
 }
 
@@ -54,6 +61,8 @@ pub struct Probe<T> {
     pub subscribed: Mutex<bool>,
     /// the last error value received (for oracles that need to downcast it)
     pub last_err: Mutex<Option<DynErr>>,
+    /// called at the end of every handler with (trigger, k); used to attach other probes
+    pub hook: Mutex<Option<Arc<dyn Fn(u8, usize) + Send + Sync>>>,
 }
 
 impl<T: Repr + Send + Sync + 'static> Probe<T> {
@@ -71,6 +80,7 @@ impl<T: Repr + Send + Sync + 'static> Probe<T> {
             err_id,
             subscribed: Mutex::new(false),
             last_err: Mutex::new(None),
+            hook: Mutex::new(None),
         })
     }
 
@@ -102,24 +112,35 @@ impl<T: Repr + Send + Sync + 'static> Probe<T> {
                     }
                 }
                 self.react(0);
+                self.run_hook(0, 0);
             },
             Message::Data(d) => {
                 let v = d.repr();
                 let _f = self.world.enter(self.edge, Dir::Down, Kind::Data, v, -1);
                 let k = self.world.with_edge(self.edge, |e| e.data_down) as usize;
                 self.react(k);
+                self.run_hook(1, k);
             },
             Message::Terminate => {
                 let _f = self.world.enter(self.edge, Dir::Down, Kind::Terminate, Val::none(), -1);
+                self.run_hook(2, 0);
             },
             Message::Error(e) => {
                 *self.last_err.lock().unwrap() = Some(Arc::clone(&e));
                 let id = self.world.err_id(&e);
                 let _f = self.world.enter(self.edge, Dir::Down, Kind::Error, Val::none(), id);
+                self.run_hook(2, 0);
             },
             Message::Pull => {
                 let _f = self.world.enter(self.edge, Dir::Down, Kind::Pull, Val::none(), -1);
             },
+        }
+    }
+
+    fn run_hook(&self, trigger: u8, k: usize) {
+        let h = self.hook.lock().unwrap().clone();
+        if let Some(h) = h {
+            h(trigger, k);
         }
     }
 
@@ -138,6 +159,10 @@ impl<T: Repr + Send + Sync + 'static> Probe<T> {
         if r == React::Nothing || !self.can_act() {
             return false;
         }
+        if let React::PullTerminate | React::PullError = r {
+            self.act(React::Pull);
+            return self.act(if r == React::PullTerminate { React::Terminate } else { React::Error });
+        }
         if matches!(r, React::Pull | React::Pull2)
             && self.world.with_edge(self.edge, |e| e.pulls_up) as usize >= self.spec.pull_cap
         {
@@ -148,7 +173,7 @@ impl<T: Repr + Send + Sync + 'static> Probe<T> {
             None => return false,
         };
         match r {
-            React::Nothing => {},
+            React::Nothing | React::PullTerminate | React::PullError => {},
             React::Pull => {
                 let _f = self.world.enter(self.edge, Dir::Up, Kind::Pull, Val::none(), -1);
                 tb(Message::Pull);
